@@ -402,14 +402,6 @@ func (s *segment) ReadAt(p []byte, off int64) (n int, err error) {
 	return s.log.ReadAt(p, off)
 }
 
-// IsReplaced returns true if the segment was swapped for its compacted copy
-// by the cleaner. A replaced segment can no longer be read.
-func (s *segment) IsReplaced() bool {
-	s.RLock()
-	defer s.RUnlock()
-	return s.replaced
-}
-
 func (s *segment) notifyWaiters() {
 	for r, ch := range s.waiters {
 		close(ch)
@@ -669,6 +661,7 @@ func (s *segmentScanner) Scan() (messageSet, *entry, error) {
 type reverseSegmentScanner struct {
 	s   *segment
 	ris *reverseIndexScanner
+	err error // Error locating the start entry, returned by Scan.
 }
 
 // newReverseSegmentScanner creates a scanner that iterates from the given
@@ -677,31 +670,36 @@ func newReverseSegmentScanner(segment *segment, startOffset int64) *reverseSegme
 	// Convert log offset to index entry offset. Because the segment could be
 	// compacted, the index must be searched: the entry of an offset is not
 	// necessarily at offset - BaseOffset.
-	entryOffset := segment.findLastEntryIndex(startOffset)
+	entryOffset, err := segment.findLastEntryIndex(startOffset)
 	return &reverseSegmentScanner{
 		s:   segment,
 		ris: newReverseIndexScanner(segment.Index, entryOffset),
+		err: err,
 	}
 }
 
 // findLastEntryIndex returns the position in the index of the last entry whose
 // offset is less than or equal to the given offset or -1 if there is no such
 // entry.
-func (s *segment) findLastEntryIndex(offset int64) int64 {
+func (s *segment) findLastEntryIndex(offset int64) (int64, error) {
 	s.RLock()
 	defer s.RUnlock()
 	var (
 		entry = &entry{}
 		n     = int(s.Index.CountEntries())
+		err   error
 	)
 	idx := sort.Search(n, func(i int) bool {
-		if err := s.Index.ReadEntryAtLogOffset(entry, int64(i)); err != nil {
-			// Stop here, the scanner will surface the error.
+		if e := s.Index.ReadEntryAtLogOffset(entry, int64(i)); e != nil {
+			err = e
 			return true
 		}
 		return entry.Offset > offset
 	})
-	return int64(idx) - 1
+	if err != nil {
+		return -1, err
+	}
+	return int64(idx) - 1, nil
 }
 
 // newReverseSegmentScannerFromEnd creates a scanner that starts at the last
@@ -716,9 +714,12 @@ func newReverseSegmentScannerFromEnd(segment *segment) *reverseSegmentScanner {
 // Scan reads the current message and moves to the previous one.
 // Returns io.EOF when there are no more messages.
 func (s *reverseSegmentScanner) Scan() (messageSet, *entry, error) {
+	if s.err != nil {
+		return nil, nil, s.indexError(s.err)
+	}
 	entry, err := s.ris.Scan()
 	if err != nil {
-		return nil, nil, err
+		return nil, nil, s.indexError(err)
 	}
 	header := make(messageSet, msgSetHeaderLen)
 	_, err = s.s.ReadAt(header, entry.Position)
@@ -732,6 +733,21 @@ func (s *reverseSegmentScanner) Scan() (messageSet, *entry, error) {
 	}
 	msgSet := append(header, payload...)
 	return msgSet, entry, nil
+}
+
+// indexError translates an error reading the index of a closed segment the
+// way ReadAt does for the log: if the segment was replaced due to compaction,
+// the caller must see ErrSegmentReplaced, never an empty segment.
+func (s *reverseSegmentScanner) indexError(err error) error {
+	if err != ErrSegmentClosed {
+		return err
+	}
+	s.s.RLock()
+	defer s.s.RUnlock()
+	if s.s.replaced {
+		return ErrSegmentReplaced
+	}
+	return err
 }
 
 func (s *segment) logPath() string {
